@@ -615,6 +615,15 @@ impl Backend for SimBackend {
         })
     }
 
+    fn unsupported(&self, what: &str) -> ! {
+        // exit status 7 = "not simulable"; the parent reports it as a harness error
+        let msg = format!("not simulable: {}", what);
+        unsafe {
+            libc::write(crate::runner::RESULT_FD.load(std::sync::atomic::Ordering::SeqCst), msg.as_ptr() as *const libc::c_void, msg.len());
+            libc::_exit(7)
+        }
+    }
+
     fn close(&self, stream: usize) {
         let w = match WORLD.get() {
             Some(w) => w,
